@@ -1038,6 +1038,8 @@ impl LowerHex for Number {
                 fmt::LowerHex::fmt(&num.unsigned_abs(), f)
             }
             Number::Fixnum(num) => fmt::LowerHex::fmt(num, f),
+            // infinities and NaN have no digits to print (and no finite fraction)
+            Number::Float(num) if !num.is_finite() => write!(f, "{}", num),
             Number::Float(num) => {
                 if *num < 0_f64 {
                     write!(f, "-")?;
@@ -1063,6 +1065,8 @@ impl Octal for Number {
                 fmt::Octal::fmt(&num.unsigned_abs(), f)
             }
             Number::Fixnum(num) => fmt::Octal::fmt(num, f),
+            // infinities and NaN have no digits to print (and no finite fraction)
+            Number::Float(num) if !num.is_finite() => write!(f, "{}", num),
             Number::Float(num) => {
                 if *num < 0_f64 {
                     write!(f, "-")?;
@@ -1088,6 +1092,8 @@ impl Binary for Number {
                 fmt::Binary::fmt(&num.unsigned_abs(), f)
             }
             Number::Fixnum(num) => fmt::Binary::fmt(num, f),
+            // infinities and NaN have no digits to print (and no finite fraction)
+            Number::Float(num) if !num.is_finite() => write!(f, "{}", num),
             Number::Float(num) => {
                 if *num < 0_f64 {
                     write!(f, "-")?;
